@@ -21,7 +21,7 @@ CASES = {"quick": 1500, "thorough": 30000}
 MIN_CASES_PER_SHARD = 12
 CASE_TIMEOUT = 60
 RULE = ("one case = a build history of 4..25 operations (add_node / add_nodes / add_edge / add_edges with and without no_commit / no_index, "
-        "explicit commit, reindex_nodes, reindex_edges) on a SqliteMap with a random metric flag and projection settings, followed by 1-3 "
+        "explicit commit, reindex_nodes, reindex_edges, repeated add of an existing label with ignore_doubles) on a SqliteMap with a random metric flag and projection settings, followed by 1-3 "
         "reopen cycles (first connection closed or still open); or an InMemMap (graph, linked edges, metric flag, projection settings) dumped "
         "to a pickle and loaded 1-2 times. Non-trivial = >= 2 kinds of insert and a non-default metric flag (planar) ; distinct = hash of the history")
 ANCHORS = [("leuvenmapmatching/map/sqlite.py", "SqliteMap.read_properties"),
@@ -37,7 +37,7 @@ ANCHORS = [("leuvenmapmatching/map/sqlite.py", "SqliteMap.read_properties"),
            ("leuvenmapmatching/map/base.py", "BaseMap.use_latlon")]
 FLOORS = {"reopen_cycles:planar": 100, "reopen_cycles:latlon": 80, "deferred_commit_histories": 50, "deferred_index_histories": 50,
           "committing_ops_checked": 1500, "reindex_checked": 100, "pickle_cycles": 60, "queries_compared": 4000,
-          "reopen_with_first_connection_open": 40}
+          "reopen_with_first_connection_open": 40, "repeated_node_adds": 100}
 ASSUMPTIONS = ["a history that used no_commit ends with an explicit db.commit() before the map is reopened (the documented contract: "
                "'remember to commit later'); histories that used no_index end with the matching reindex_* call in 85 % of the cases, "
                "otherwise only original-vs-reopened (not the model) is compared on index-backed listings",
@@ -106,6 +106,13 @@ def gen_case(rng, i, tier):
                 pend_edges.remove(e)
         if rng.random() < 0.08:
             ops.append({"op": rng.choice(["commit", "reindex_nodes", "reindex_edges"])})
+        if added and rng.random() < 0.06:
+            # a label added again with ignore_doubles=True (OSM ways share nodes): ignored, the first location stays
+            l = rng.choice(sorted(added))
+            loc = list(pts[l]) if rng.random() < 0.5 else [pts[l][0] + 1.0, pts[l][1] - 2.0]
+            nc = rng.random() < 0.3
+            used_no_commit |= nc
+            ops.append({"op": "add_node_again", "node": l, "loc": loc, "no_commit": nc})
     reindexed = True
     if used_no_index_n or used_no_index_e:
         if rng.random() < 0.85:
@@ -212,6 +219,10 @@ def check_sqlite(ctx, case):
                 if o == "add_node":
                     sm.add_node(op["node"], tuple(op["loc"]), no_index=op["no_index"], no_commit=op["no_commit"])
                     committing = not op["no_commit"]
+                elif o == "add_node_again":
+                    sm.add_node(op["node"], tuple(op["loc"]), ignore_doubles=True, no_commit=op["no_commit"])
+                    committing = not op["no_commit"]
+                    ctx.count("repeated_node_adds")
                 elif o == "add_nodes":
                     sm.add_nodes([(l, tuple(p)) for l, p in op["nodes"]])
                 elif o == "add_edge":
